@@ -111,6 +111,7 @@ PLANS = {
         'deadline': {'quick': 420, 'thorough': 2400},
         'jobs': [
             job('addrs', 'addrs', 'C13', {'quick': 4, 'thorough': 5}, 1, wit=['c13_set_checked', 'fault_fired', 'c13_multi_address', 'c13_non_dns_checked', 'c13_non_dns_port_checked', 'c13_loopback_checked', 'c13_reverse_question_checked']),
+            job('addrs-envhosts', 'addrs-envhosts', 'C13', {'quick': 4, 'thorough': 5}, 0, wit=['c13_env_hosts_file_used', 'c13_non_dns_checked']),
             job('addrs-cache', 'addrs-cache', 'C13', {'quick': 6, 'thorough': 7}, 0, wit=['c13_cache_hit_ttl_checked']),
         ],
     },
